@@ -25,6 +25,10 @@ type specEnv struct {
 	self *sval
 	gst  *State // state whose ghost variables are visible (stays at the outer state inside old()/locked())
 	lockedSt *State // at a call site: the callee's state right after its lock acquisition (simulated)
+	// at a call site: lockedN(k, e) of the callee's contract. Every k gets its own simulated
+	// post-acquisition state (nothing is known about how the k-th state relates to the others).
+	mkLocked  func() *State
+	lockedNSt map[int64]*State
 }
 
 func (env *specEnv) with(name string, v sval) *specEnv {
@@ -226,9 +230,25 @@ func (env *specEnv) eval(e *SExpr) sval {
 			fv.nQuant++
 			v := smt.Term{S: name, Sort: so}
 			vars = append(vars, v)
-			inner = inner.with(b.Name, sval{v, ty})
+			bound := v
+			// Change of variable for a binder used as a slice index: if the body reads X[b] for a
+			// slice X that does not depend on the binders, quantify over the absolute position
+			// k = off(X)+b instead, so that the element read is select(row, k) with k a plain
+			// variable (a usable E-matching trigger; "off+b" inside a select is not).
+			if so == smt.Int && !fv.opt.NoIndexCOV {
+				names := map[string]bool{}
+				for _, bb := range e.Vars {
+					names[bb.Name] = true
+				}
+				if x := findIndexedSlice(e.Args[0], b.Name, names); x != nil {
+					if xv, ok := env.tryEval(x); ok && xv.t.Sort == SliceSort {
+						bound = smt.Sub(v, slOff(xv.t))
+					}
+				}
+			}
+			inner = inner.with(b.Name, sval{bound, ty})
 			if ty != nil {
-				guard = smt.And(guard, fv.so.validNoFrontier(v, ty))
+				guard = smt.And(guard, fv.so.validNoFrontier(bound, ty))
 			}
 		}
 		body := inner.evalBool(e.Args[0])
@@ -243,6 +263,61 @@ func (env *specEnv) eval(e *SExpr) sval {
 	}
 	env.fail(e, "unsupported operator %s", e.Op)
 	return sval{}
+}
+
+// findIndexedSlice returns the first sub-expression X of e such that e contains X[b]
+// with X free of the bound names and not under a state-changing call.
+func findIndexedSlice(e *SExpr, b string, bound map[string]bool) *SExpr {
+	if e == nil {
+		return nil
+	}
+	if e.Op == "call" && len(e.Args) > 0 && e.Args[0].Op == "ident" {
+		switch e.Args[0].Name {
+		case "old", "locked", "lockedN", "iter":
+			return nil
+		}
+	}
+	if e.Op == "forall" || e.Op == "exists" {
+		for _, v := range e.Vars {
+			if v.Name == b {
+				return nil
+			}
+		}
+	}
+	if e.Op == "index" && len(e.Args) == 2 && e.Args[1].Op == "ident" && e.Args[1].Name == b && !mentionsAny(e.Args[0], bound) {
+		return e.Args[0]
+	}
+	for _, a := range e.Args {
+		if x := findIndexedSlice(a, b, bound); x != nil {
+			return x
+		}
+	}
+	return nil
+}
+
+func mentionsAny(e *SExpr, names map[string]bool) bool {
+	if e == nil {
+		return false
+	}
+	if e.Op == "ident" && names[e.Name] {
+		return true
+	}
+	for _, a := range e.Args {
+		if mentionsAny(a, names) {
+			return true
+		}
+	}
+	return false
+}
+
+// tryEval evaluates e, reporting false instead of failing the function when e is unsupported.
+func (env *specEnv) tryEval(e *SExpr) (v sval, ok bool) {
+	defer func() {
+		if r := recover(); r != nil {
+			ok = false
+		}
+	}()
+	return env.eval(e), true
 }
 
 func (env *specEnv) isNil(v sval) smt.Term {
@@ -453,6 +528,19 @@ func (env *specEnv) evalCall(e *SExpr) sval {
 	case "lockedN":
 		// lockedN(n, e): e in the state right after the n-th lock acquisition (program order, 1-based)
 		nv, ok := smt.IntVal(env.eval(args[0]).t)
+		if ok && nv.Sign() > 0 && env.mkLocked != nil {
+			ls := env.lockedNSt[nv.Int64()]
+			if ls == nil {
+				ls = env.mkLocked()
+				env.lockedNSt[nv.Int64()] = ls
+			}
+			n := *env
+			if n.gst == nil {
+				n.gst = env.cur
+			}
+			n.cur = ls
+			return n.eval(args[1])
+		}
 		if !ok || nv.Sign() <= 0 || int(nv.Int64()) > len(fv.lockSnaps) {
 			env.fail(e, "lockedN: no such lock acquisition (have %d)", len(fv.lockSnaps))
 		}
@@ -578,6 +666,17 @@ func (env *specEnv) evalCall(e *SExpr) sval {
 			env.fail(e, "macstr needs a byte slice")
 		}
 		return sval{fv.hwaddrStr(env.cur, v.t), types.Typ[types.String]}
+	case "ipkey", "ipstr":
+		// ipkey(x): identity of the net.IP.Equal class of x in the current state; ipstr(x) = x.String()
+		v := env.eval(args[0])
+		if v.t.Sort != SliceSort {
+			env.fail(e, "ipkey needs a byte slice")
+		}
+		if name == "ipstr" {
+			k := fv.ipKey(env.cur, v.t)
+			return sval{smt.App(StrSort, "ip_str", k), types.Typ[types.String]}
+		}
+		return mathVal(fv.ipKey(env.cur, v.t))
 	case "now":
 		return mathVal(env.cur.now)
 	case "pow2":
@@ -637,7 +736,7 @@ func (env *specEnv) evalCall(e *SExpr) sval {
 		if pf.Rec {
 			return env.callRecPure(pf, args)
 		}
-		inner := &specEnv{fv: fv, cur: env.cur, old: env.old, vars: map[string]sval{}, pkg: env.pkg, self: env.self, lockedSt: env.lockedSt}
+		inner := &specEnv{fv: fv, cur: env.cur, old: env.old, vars: map[string]sval{}, pkg: env.pkg, self: env.self, lockedSt: env.lockedSt, mkLocked: env.mkLocked, lockedNSt: env.lockedNSt}
 		for i, p := range pf.Params {
 			av := env.eval(args[i])
 			_, ty := env.sortOfName(p.Type)
@@ -1277,7 +1376,14 @@ func (fv *funcVerifier) callWithSpecSig(st *State, call *ast.CallExpr, sig *type
 	// assumed (monitor model). In "mode seq" (the receiver is reachable only under a lock the caller
 	// holds) it is the pre-call state itself, and the callee's lock invariants are proof obligations.
 	var lockedSt *State
+	var mkLocked func() *State
 	if recvType != nil && specMentionsLocked(sp) {
+		if fv.opt.SeqCalls {
+			mkLocked = func() *State { return pre.clone() }
+		} else {
+			atCall := st.clone()
+			mkLocked = func() *State { return fv.simulateLock(atCall, recv, recvType, sp) }
+		}
 		if fv.opt.SeqCalls {
 			if n, ok := derefNamed(recvType); ok && n.Obj().Pkg() != nil {
 				if ts := fv.prog.Specs.Types[ShortPkg(n.Obj().Pkg().Path())+"."+n.Obj().Name()]; ts != nil {
@@ -1296,6 +1402,8 @@ func (fv *funcVerifier) callWithSpecSig(st *State, call *ast.CallExpr, sig *type
 	post := *env
 	post.cur = st
 	post.lockedSt = lockedSt
+	post.mkLocked = mkLocked
+	post.lockedNSt = map[int64]*State{}
 	post.vars = map[string]sval{}
 	for k, v := range env.vars {
 		post.vars[k] = v
@@ -1570,7 +1678,7 @@ func invGuardedBy(ss *SpecSet, ts *TypeSpec, e *SExpr, mu string) bool {
 
 func specMentionsLocked(sp *FuncSpec) bool {
 	for _, e := range sp.Ensures {
-		if strings.Contains(e.String(), "locked(") {
+		if strings.Contains(e.String(), "locked(") || strings.Contains(e.String(), "lockedN(") {
 			return true
 		}
 	}
